@@ -18,9 +18,10 @@
 (* file from one that has been mutated in memory, so that edges are        *)
 (* generated from both.                                                    *)
 (*                                                                         *)
-(* Named deviation: NewEnc = "wallet" is the design (New seals with the    *)
-(* wallet's parameters); NewEnc = "default" is what client.go does today   *)
-(* (keypair.EncryptPrivateKey = library default parameters) - F16.         *)
+(* Named deviation: NewEnc = "wallet" is the design and the code since     *)
+(* fix 7cb6838 (New seals with the wallet's parameters); NewEnc = "default"*)
+(* is what client.go did before (keypair.EncryptPrivateKey = library       *)
+(* default parameters) - finding F16; kept as the counterexample model.    *)
 (*                                                                         *)
 (* Monitor part.  live[id] is the password the user was told protects      *)
 (* account id ("-" = not in the wallet); it is maintained from the API     *)
@@ -40,7 +41,7 @@ CONSTANTS PWs,        \* usable passwords (strings "p1".."p3"; concretized by th
           MaxId,      \* key pairs ever created
           InitParams, \* parameter sets a fresh wallet may carry
           ConvTo,     \* parameter sets the export/convert action may target
-          NewEnc,     \* "wallet" (design) | "default" (client.go as it is: F16)
+          NewEnc,     \* "wallet" (design, code since 7cb6838) | "default" (client.go before the fix: F16)
           MaxHist,    \* bound on the number of mutating calls of a history
           EmitOn
 VARIABLES w, disk, loaded, nextId, live, hist
